@@ -589,12 +589,15 @@ pub fn run_l1(scn: &C10Scenario, stats: &mut RunStats) -> Vec<Violation> {
         *stats.ops.entry(op_kind(op).to_owned()).or_insert(0) += 1;
         match op {
             Op::Edit { path, body } | Op::Add { path, body } => {
+                // the watcher reports a write to a missing path as a creation, whatever
+                // the history calls it
+                let existed = store.user_read(path).is_some();
                 if let Some(bytes) = body.bytes() {
                     store.user_write(path, &bytes);
                 }
                 oracle.removed_sources.remove(path);
                 if let Some(tree) = inc.tree.as_mut() {
-                    let is_add = matches!(op, Op::Add { .. });
+                    let is_add = !existed;
                     let result = exec::catch(|| {
                         if is_add {
                             if scn.use_add_source {
@@ -1073,7 +1076,18 @@ impl Property for C10 {
             allow_faults: true,
             avoid: if index % 8 == 7 { Vec::new() } else { avoid.clone() },
         };
-        let scn = c10gen::generate(run_seed, &knobs);
+        // the first indices of every batch are the exhaustive short-history stratum
+        let enum_len = if tier == "thorough" { 3 } else { 2 };
+        let enumerated = if index < c10gen::enum_count(enum_len) {
+            c10gen::enumerated(index, enum_len)
+        } else {
+            None
+        };
+        let is_enumerated = enumerated.is_some();
+        let scn = match enumerated {
+            Some(scn) => scn,
+            None => c10gen::generate(run_seed, &knobs),
+        };
         let mut stats = RunStats::default();
         let violations = check(&scn, &mut stats)?;
         let mut counters: BTreeMap<String, u64> = BTreeMap::new();
@@ -1085,6 +1099,9 @@ impl Property for C10 {
         }
         for (k, v) in &stats.probes {
             counters.insert(format!("probe:{}", k), *v);
+        }
+        if is_enumerated {
+            counters.insert("enumerated_short_histories".to_owned(), 1);
         }
         counters.insert("passes".to_owned(), stats.passes);
         counters.insert("fresh_run_comparisons".to_owned(), stats.fresh_runs);
